@@ -96,23 +96,28 @@ def reader_wrap_sites(ctx, chk, R4):
                             break
                     if wrap is not None:
                         break
-                # arguments: offset / length of the same row
-                kws = {k.arg: norm(k.value) for k in n.keywords}
-                args = [norm(a) for a in n.args]
-                off = kws.get('offset', args[1] if len(args) > 1 else '')
-                ln = kws.get('length', args[2] if len(args) > 2 else '')
-                if 'offset' not in off or 'length' not in ln:
+                # arguments: offset / length of the same row (roles by attribute name of the row object / by the column a loop variable was unpacked from)
+                from .common import field_role
+                kwn = {k.arg: k.value for k in n.keywords}
+                offe = kwn.get('offset', n.args[1] if len(n.args) > 1 else None)
+                lne = kwn.get('length', n.args[2] if len(n.args) > 2 else None)
+                off, ln = norm(offe) if offe is not None else '', norm(lne) if lne is not None else ''
+                if field_role(prog, f, offe, n) != 'offset' or field_role(prog, f, lne, n) != 'length':
                     chk.bad(R4, f.qualname, norm(n)[:100], f'PackedObjectReader is constructed with offset=`{off}`, length=`{ln}`: not the offset/length columns of the row', where=f'{f.module.relpath}:{n.lineno}')
                     continue
                 if wrap is None:
                     chk.bad(R4, f.qualname, norm(n)[:100], 'no `if <compressed flag>: reader = decompresser(reader)` follows this packed reader: compressed objects would be returned raw', where=f'{f.module.relpath}:{n.lineno}')
                 else:
                     t = norm(wrap.test)
-                    if isinstance(wrap.test, ast.Compare) and any(isinstance(o, (ast.Is, ast.IsNot)) for o in wrap.test.ops) and 'compressed' in t:
+                    flag_role = field_role(prog, f, wrap.test, wrap) if isinstance(wrap.test, (ast.Name, ast.Attribute)) else None
+                    ident_role = None
+                    if isinstance(wrap.test, ast.Compare) and any(isinstance(o, (ast.Is, ast.IsNot)) for o in wrap.test.ops):
+                        ident_role = field_role(prog, f, wrap.test.left, wrap)
+                    if ident_role == 'compressed':
                         chk.bad(R4, f.qualname, f'if {t}', 'the compressed flag of the row is tested by identity (`is True`): rows fetched through the raw SQL scan (the strategy used for large requests) '
                                 'carry the flag as the integer 1, for which the identity test is false, so compressed objects are handed out as raw zlib bytes depending on the lookup strategy',
                                 where=f'{f.module.relpath}:{wrap.lineno}')
-                    elif 'compressed' in t and isinstance(wrap.test, (ast.Name, ast.Attribute, ast.Subscript)):
+                    elif flag_role == 'compressed':
                         chk.ok(R4, f.qualname, f'{norm(n)[:60]} ; if {t}: wrap', detail='decompresser wraps the reader iff the row is flagged compressed')
                     else:
                         chk.bad(R4, f.qualname, f'if {t}', 'the decompresser is applied under a condition that is not the row\'s compressed flag', where=f'{f.module.relpath}:{wrap.lineno}')
